@@ -1,8 +1,8 @@
-import Infretis.Lemmas.RepexC04Restart
+import Infretis.Lemmas.RepexC04C05
 /-!
 # C04 — fractional weights are conserved and accounted for exactly once
 
-Property theorems only (helper lemmas: `Infretis/Lemmas/RepexC04{Rec,Rows,Treat,Check,Frame,Hist,Once,Restart}.lean`;
+Property theorems only (helper lemmas: `Infretis/Lemmas/RepexC04{Rec,Rows,Treat,Check,Frame,Hist,Once,Restart,C05}.lean`;
 the history theorems use C03's scheduler invariant `Inv` from `RepexC03{Core,Treat,Sys,Init,Load}.lean`).
 Model: `Infretis/Model/Repex.lean` (`recordFrac` = the "record weights" loop of `treat_output`,
 `writeRows` = `write_to_pathens`, `treatOutput`, the scheduler events `sysStep`/`run`, the restart
@@ -466,5 +466,138 @@ example : RowInit exSysQ ∧ run exSysQ exEvs1 = .ok exEndQ ∧ MatchableAlong e
    by decide +kernel, by decide +kernel, by decide +kernel,
    matchableAlong_of_B _ _ (by decide +kernel), by decide +kernel, by decide +kernel,
    by decide +kernel, by decide +kernel⟩
+
+/-! ## 7. The same laws without the matchability hypothesis (C05 plugged in)
+
+C05 proves that the family invariant `Inv5` (family rows + positive permanent of the idle block)
+holds along every history from an `Init5` start (`load_paths` on paths of C02's weight family,
+`fresh_start_is_init5` in C05) whose accepted outcomes are family vectors (`HistOk`, checked along
+the run).  `RepexC04C05.lean` carries it to the recording state inside `treat_output`
+(`recState_fam`), so `HistOk` replaces `MatchableAlong`. -/
+
+/-- **Conservation, no matchability hypothesis.** -/
+theorem conservation_reachable (y0 y : Sys) (evs : List Ev) (h0 : FracInit y0) (h5 : Init5 y0)
+    (hh : HistOk y0 evs) (hr : run y0 evs = .ok y) (c : Nat) :
+    rowsTotal y.s.rows c + colTotal y.s.frac c = (idleSteps y0 evs c : Rat) :=
+  conservation y0 y evs h0 hr (matchableAlong_of_histOk evs y0 h5.inv5 hh) c
+
+/-- **One worker: every ensemble column total equals the step counter, no matchability hypothesis.** -/
+theorem conservation_one_worker_reachable (y0 y : Sys) (evs : List Ev) (h0 : FracInit y0)
+    (h5 : Init5 y0) (hh : HistOk y0 evs) (hw : y0.s.workers = 1) (hc0 : y0.s.cstep = 0)
+    (hr : run y0 evs = .ok y) (c : Nat) (hc : c < y.s.n - 1) :
+    rowsTotal y.s.rows c + colTotal y.s.frac c = (y.s.cstep : Rat) :=
+  conservation_one_worker y0 y evs h0 hw hc0 hr (matchableAlong_of_histOk evs y0 h5.inv5 hh) c hc
+
+/-- **Each completed step adds exactly one unit per idle column.**  `y` reachable as above, one more
+    completed step (any job `k`, any status, outcome in the family) leading to `y'`.  With `sR` the
+    recording state (the job's slots released, new paths in the table with zero vectors — so `sR`
+    has the data file and the column totals of `y`) and `s2` the state after "record weights":
+    every idle column gains exactly 1 and every other column 0; only `frac` changes; only vectors of
+    idle live paths change; the path in idle slot `i` gains `probMatrix[i][c]` in entry `c` — the
+    permanent ratio of the idle block for idle `c`, `0` for busy `c`, `0` where `W[i][c] = 0`, never
+    negative; and over the whole step `rows + frac` grows by exactly that 1 or 0 per column. -/
+theorem step_adds_one_per_idle_column_reachable (y0 y y' : Sys) (evs : List Ev) (h0 : FracInit y0)
+    (h5 : Init5 y0) (hh : HistOk y0 evs) (hr : run y0 evs = .ok y)
+    (k : Nat) (status : Status) (newW : List (List Rat)) (o : PickOutcome)
+    (hev : EvOk y (.step k status newW o)) (hs : sysStep y (.step k status newW o) = .ok y') :
+    ∃ job sR tn pns s2, y.jobs[k]? = some job ∧
+      recState (loop y.s).1 job status newW = .ok (sR, tn, pns) ∧ recordFrac sR = .ok s2 ∧
+      sR.n = y.s.n ∧ sR.rows = y.s.rows ∧ (∀ c, colTotal sR.frac c = colTotal y.s.frac c) ∧
+      (∀ c, colTotal s2.frac c - colTotal sR.frac c = if sR.locks[c]? = some false then 1 else 0) ∧
+      s2 = { sR with frac := s2.frac } ∧ s2.frac.map Prod.fst = sR.frac.map Prod.fst ∧
+      (∀ q, (∀ i, i < sR.n - 1 → sR.locks[i]? = some false → sR.trajs[i]? ≠ some (some q)) →
+          s2.frac.lookup q = sR.frac.lookup q) ∧
+      (∀ i pn, i < sR.n - 1 → sR.locks[i]? = some false → sR.trajs[i]? = some (some pn) → ∀ c,
+          fracAt s2.frac pn c - fracAt sR.frac pn c = entry (prob sR) i c ∧
+          (sR.locks[c]? = some false →
+            entry (prob sR) i c = pSpec (idle sR.W sR.locks) (rank sR.locks i) (rank sR.locks c)) ∧
+          (sR.locks[c]? ≠ some false → entry (prob sR) i c = 0) ∧
+          (entry sR.W i c = 0 → entry (prob sR) i c = 0) ∧ 0 ≤ entry (prob sR) i c) ∧
+      (∀ c, rowsTotal y'.s.rows c + colTotal y'.s.frac c
+          = rowsTotal y.s.rows c + colTotal y.s.frac c + (if sR.locks[c]? = some false then 1 else 0)) := by
+  have hm := matchableAlong_of_histOk evs y0 h5.inv5 hh
+  obtain ⟨hi, _, _⟩ := run_total evs h0.hinv h0.jinv hr hm
+  have hi5 := (run_preserves5 evs h5.inv5 hh hr).1
+  obtain ⟨job, sR, tn, pns, s2, hjob, hrec, hrf, wf, hM, hk, hl, hn, hcol, hrows, htot⟩ :=
+    step_record hi hi5 hev hs
+  obtain ⟨a1, a2, a3, a4, a5⟩ := recordFrac_adds_one_per_idle_column wf hM hk hl hrf
+  have hfam := recState_fam hi5 hev hjob hrec
+  have hnn : ∀ i c, 0 ≤ entry (prob sR) i c :=
+    fun i c => Infretis.Perm.C05.probMatrix_nonneg sR.W sR.locks (by rw [wf.lenW, wf.lenL])
+      (rows_nonneg sR.n sR.W sR.locks wf.lenL wf.ghost hfam.rows) hfam.perm i c
+  refine ⟨job, sR, tn, pns, s2, hjob, hrec, hrf, hn, hrows, hcol, a1, a2, a3, a4, ?_, htot⟩
+  intro i pn hi' hl' ht c
+  obtain ⟨b1, b2, b3, b4, _⟩ := a5 i pn hi' hl' ht c
+  exact ⟨b1, b2, b3, b4, hnn i c⟩
+
+/-! ### the two example histories satisfy the C05 hypotheses -/
+
+theorem exPaths_fam (i : Nat) (hi : i < exPaths.length) : VecOk 4 ((i : Int) - 1) (exPaths[i]).2.1 := by
+  have : i = 0 ∨ i = 1 ∨ i = 2 := by
+    simp only [exPaths, List.length_cons, List.length_nil] at hi; omega
+  rcases this with rfl | rfl | rfl
+  · show VecOk 4 (-1) [1]
+    exact vecOk_of_B (by decide +kernel)
+  · show VecOk 4 0 [1, 1, 0]
+    exact vecOk_of_B (by decide +kernel)
+  · show VecOk 4 1 [1, 1, 0]
+    exact vecOk_of_B (by decide +kernel)
+
+theorem ex_init5 : Init5 exSys :=
+  init5_of_loadPaths 4 2 10 0 3 0 [[-1, -1]] [[0], [0], [0]] false exPaths exS0 (by decide) (by decide)
+    (by decide) (by decide) exPaths_fam (by decide +kernel)
+
+theorem ex_init5_1 : Init5 exSys1 :=
+  init5_of_loadPaths 4 1 10 0 3 0 [[-1]] [[0], [0], [0]] false exPaths exS1 (by decide) (by decide)
+    (by decide) (by decide) exPaths_fam (by decide +kernel)
+
+theorem ex_histOk : HistOk exSys exEvs := histOk_of_B _ _ (by decide +kernel)
+
+/-- (the last outcome of `exEvs1`, weights `[1,1,1]` for `[1+]`, has a non-zero ghost-column weight and
+    is outside C02's family; the family history stops before it) -/
+theorem ex_histOk1 : HistOk exSys1 (exEvs1.take 4) := histOk_of_B _ _ (by decide +kernel)
+
+def exEnd1b : Sys := match run exSys1 (exEvs1.take 4) with | .ok y => y | .error _ => exSys1
+
+example : FracInit exSys ∧ Init5 exSys ∧ HistOk exSys exEvs ∧ run exSys exEvs = .ok exEnd ∧
+    (List.range 5).map (idleSteps exSys exEvs) = [1, 2, 1, 0, 0] ∧
+    (List.range 5).map (fun c => rowsTotal exEnd.s.rows c + colTotal exEnd.s.frac c) = [1, 2, 1, 0, 0] :=
+  ⟨ex_fracInit, ex_init5, ex_histOk, by decide +kernel, by decide +kernel, by decide +kernel⟩
+
+example : FracInit exSys1 ∧ Init5 exSys1 ∧ HistOk exSys1 (exEvs1.take 4) ∧ exSys1.s.workers = 1 ∧
+    exSys1.s.cstep = 0 ∧ run exSys1 (exEvs1.take 4) = .ok exEnd1b ∧ exEnd1b.s.cstep = 2 ∧
+    (List.range 3).map (fun c => rowsTotal exEnd1b.s.rows c + colTotal exEnd1b.s.frac c) = [2, 2, 2] :=
+  ⟨ex_fracInit1, ex_init5_1, ex_histOk1, by decide +kernel, by decide +kernel, by decide +kernel,
+   by decide +kernel, by decide +kernel⟩
+
+/-- the state of the two-worker history after the initiation (two jobs in flight) -/
+def exMid : Sys := match run exSys (exEvs.take 3) with | .ok y => y | .error _ => exSys
+
+def exMidNext : Sys :=
+  match sysStep exMid (.step 0 .acc [[1], [1, 1, 0]] { t := 0, e := 0, coin := false }) with
+  | .ok y => y
+  | .error _ => exMid
+
+def exMidRec : St :=
+  match exMid.jobs[0]? with
+  | some job =>
+    (match recState (loop exMid.s).1 job .acc [[1], [1, 1, 0]] with
+     | .ok (s, _, _) => s
+     | .error _ => exMid.s)
+  | none => exMid.s
+
+/-- the zero swap completes ACCEPTED while `[1+]` is busy: columns 0 and 1 gain one unit, column 2 and
+    the ghost column nothing -/
+example : FracInit exSys ∧ Init5 exSys ∧ HistOk exSys (exEvs.take 3) ∧
+    run exSys (exEvs.take 3) = .ok exMid ∧
+    EvOk exMid (.step 0 .acc [[1], [1, 1, 0]] { t := 0, e := 0, coin := false }) ∧
+    sysStep exMid (.step 0 .acc [[1], [1, 1, 0]] { t := 0, e := 0, coin := false }) = .ok exMidNext ∧
+    exMidRec.locks = [false, false, true, true] ∧
+    (List.range 4).map (fun c => rowsTotal exMid.s.rows c + colTotal exMid.s.frac c) = [0, 0, 0, 0] ∧
+    (List.range 4).map (fun c => rowsTotal exMidNext.s.rows c + colTotal exMidNext.s.frac c)
+      = [1, 1, 0, 0] :=
+  ⟨ex_fracInit, ex_init5, histOk_of_B _ _ (by decide +kernel), by decide +kernel,
+   evOk_of_B (by decide +kernel), by decide +kernel, by decide +kernel, by decide +kernel,
+   by decide +kernel⟩
 
 end Infretis.C04
